@@ -441,7 +441,9 @@ theorem parse_returns (img : Bytes) (f : PeFacts) : (parse img f).Returns := by
     · exact Outcome.returns_err
     · split
       · exact Outcome.returns_err
-      · exact Outcome.returns_ok _
+      · split
+        · exact Outcome.returns_err
+        · exact Outcome.returns_ok _
 
 theorem signaturesAux_returns (fuel : Nat) (t : Bytes) : (signaturesAux fuel t).Returns := by
   induction fuel generalizing t with
@@ -701,9 +703,11 @@ theorem parse_ok {img : Bytes} {f : PeFacts} {p : Parsed} (h : parse img f = .ok
       split at h
       · simp at h
       · rename_i hsum
-        simp only [Outcome.ok.injEq] at h
-        subst h
-        refine ⟨?_, ?_, ?_, rfl, rfl, rfl, rfl, rfl, rfl⟩ <;> omega
+        split at h
+        · simp at h
+        · simp only [Outcome.ok.injEq] at h
+          subst h
+          refine ⟨?_, ?_, ?_, rfl, rfl, rfl, rfl, rfl, rfl⟩ <;> omega
 
 theorem secs_data_length (img : Bytes) (secs : List (Nat × Nat)) :
     ((secs.map fun s => slice img s.1 (s.1 + s.2)).flatten).length ≤ (secs.map (·.2)).sum := by
